@@ -101,7 +101,8 @@ ASSUMPTIONS = [
     'vlle: conservation is conditional on the iteration scheme (flexsolve.fixed_point is un-accelerated, so the iterate written '
     'back by data[:] = x is the data itself; monitored `vlle-iterate-keeps-totals`); the merge branch (|liq - LIQ|.sum() < 1e-6) '
     'is modelled and proved but was never reached by the real code in any run (tag vlle-merged)',
-    'VLE.method = "shgo" is exercised in the thorough tier only (seconds per call): `_solve_v` stores the optimiser result '
+    'VLE.method = "shgo" (public attribute) is exercised in both tiers (6 / 8 histories with and without non-partitioning '
+    'chemicals, all on one worker because the objective compiles for ~25 s per process): `_solve_v` stores the optimiser result '
     'un-clipped (event solveRaw, hypothesis 0 <= v <= mol monitored as `unclipped-solver-result-bounded`); LLE.method = '
     '"differential evolution" in both tiers; LLE.method = "shgo" and the separate equilibrium/vlle.py VLLE class are not exercised',
 ]
@@ -1484,12 +1485,31 @@ def grid_branches(rng, tier):
             out.append(Case([f'new F multi gl 300.0 101325.0 {_fmt_rows(rows)}',
                              f'vle T={round(T, 2)} P={f(10 ** rng.uniform(5, 6.6))}', f'vle T={round(T, 2)} P=101325.0',
                              f'vle T={round(T + 40, 2)} P={f(10 ** rng.uniform(5, 6.6))}'], {'grid': 'super-critical'}))
-    if tier == 'thorough':
-        # VLE by shgo: `_solve_v` stores the optimiser's result WITHOUT the clip (slow: seconds per call)
-        for k in range(2):
-            new, _ = _new(rng, 'A', [0, 1, 2] if k else [0, 1], 'gl', 'random')
-            out.append(Case([new, f'vle T={round(rng.uniform(350, 365), 2)} P=101325.0 method=shgo',
-                             'vle P=101325.0 V=0.5 method=shgo'], {'grid': 'vle-shgo'}))
+    return out
+
+
+def shgo_cases(rng, tier):
+    """VLE with the alternative solver (`vle.method = 'shgo'`, a public attribute): `_solve_v` normalises, optimises and
+    scales back WITHOUT any clip, so conservation and non-negativity rest on that scaling alone.  Volatile mixtures with and
+    without non-partitioning chemicals (gas-locked O2 / N2 / CO2, liquid/solid-locked Glucose / NaCl), specifications inside
+    the two-phase region, followed by a call with the default solver on the same object.  The first shgo call of a process
+    compiles the objective (about 25 s, not cached by numba): all these cases go to ONE worker."""
+    out = []
+    f = lambda x: float(f'{x:.6g}')
+    table = [('D', [0, 2, 4]), ('C', [0, 1, 3]), ('C', [0, 1, 3, 4, 5, 6]), ('A', [0, 1]), ('D', [0, 2, 3, 4]), ('C', [0, 1, 5]),
+             ('A', [0, 1, 2]), ('C', [0, 1, 2, 4])]
+    for k, (pkgname, subset) in enumerate(table if tier == 'thorough' else table[:6]):
+        n = len(PKG_IDS[pkgname]); sc = 10 ** rng.uniform(-2, 2)
+        rows = {'g': [0.0] * n, 'l': [0.0] * n}
+        for i in subset:
+            ph = 'g' if i in PKG_LIGHT[pkgname] else rng.choice('lllg')
+            rows[ph][i] = f(sc * rng.uniform(2, 15))
+        T = round(rng.uniform(345, 368), 2); P = f(10 ** rng.uniform(4.9, 5.1))
+        ops = [f'new {pkgname} multi gl {round(rng.uniform(300, 350), 2)} 101325.0 {_fmt_rows(rows)}',
+               f'vle T={T} P={P} method=shgo', f'vle T={round(T + rng.uniform(-6, 6), 2)} P={P} method=shgo',
+               rng.choice([f'vle P={P} V={round(rng.uniform(0.2, 0.8), 2)} method=shgo', f'vle T={T} V={round(rng.uniform(0.2, 0.8), 2)} method=shgo']),
+               f'vle T={T} P={P}']
+        out.append(Case(ops, {'grid': 'vle-shgo'}))
     return out
 
 
@@ -1499,6 +1519,8 @@ def generate(rng, tier, index, nworkers):
     # the same grid in every worker would need the same rng: derive it from the tier-level seed instead
     grid = grid + grid_histories(random.Random(rng.random()))
     grid = grid + grid_branches(random.Random(rng.random()), tier)
+    if index == 0:
+        for c in shgo_cases(random.Random(rng.random()), tier): yield c
     for k, c in enumerate(grid):
         if k % nworkers == index: yield c
     for _ in range(max(1, b['cases'] // nworkers)):
